@@ -111,7 +111,7 @@ def main(tier: str) -> int:
     if not cxxlab.tools_available():
         raise common.Inconclusive('g++ / clang++-14 not available')
     run = common.Run(PROP, tier, level='fault_enumeration')
-    n = 9 if tier == 'quick' else 60
+    n = 9 if tier == 'quick' else 200
     run.require('final_constructions', 'all_bound_runs', 'user_side_bindings_omitted',
                 'component_side_bindings_omitted', 'omitted_on_STS_port', 'omitted_on_MTS_port',
                 'omitted_on_multiclient_port', 'late_registrations',
